@@ -40,15 +40,20 @@ CONSTRUCTS = ('ref', 'rep', 'range', 'name', 'if')
 # generation
 # --------------------------------------------------------------------------
 
-def _layout(n, W, split):
-    """node index -> address; nodes >= split live on sheet S2."""
+SHEET_PAIRS = [('Sheet1', 'S2'), ('Sheet1', 'S2'), ('Sales', 'NetSales'),
+               ('NetSales', 'Sales'), ('Data', 'MetaData'), ('XS2', 'S2'),
+               ('A', 'AA'), ('Sheet1', 'Sheet11')]
+
+
+def _layout(n, W, split, sheets=('Sheet1', 'S2')):
+    """node index -> address; nodes >= split live on the second sheet."""
     out = []
     for i in range(n):
         if i < split:
-            out.append(worlds.addr('Sheet1', i % W, i // W))
+            out.append(worlds.addr(sheets[0], i % W, i // W))
         else:
             j = i - split
-            out.append(worlds.addr('S2', j % W, j // W))
+            out.append(worlds.addr(sheets[1], j % W, j // W))
     return out
 
 
@@ -97,7 +102,7 @@ def _mk_term(rng, kind, i, j, ctx, allowed_dead=None):
     if kind == 'range':
         (r1, c1, r2, c2), members = _rect_for(
             rng, j, ctx['n'], ctx['W'], ctx['split'], ctx['allowed'](i))
-        sheet = 'Sheet1' if j < ctx['split'] else 'S2'
+        sheet = ctx['sheets'][0] if j < ctx['split'] else ctx['sheets'][1]
         a1 = worlds.addr(sheet, c1, r1).split('!')[1]
         a2 = worlds.addr(sheet, c2, r2).split('!')[1]
         return {'t': 'range', 'sheet': sheet, 'ref': f'{a1}:{a2}',
@@ -115,7 +120,7 @@ def gen_case(seed, tier='quick'):
     if cls == 'chain_ok':
         n = rng.choice([1, 2, 3, 5, 10, 20, 40, 70, 100, rng.randint(1, 100)])
     elif cls == 'longcycle':
-        n = rng.randint(17, 100)
+        n = rng.randint(17, 120)
     elif cls == 'fail':
         n = rng.randint(1, 26)
     else:
@@ -124,10 +129,15 @@ def gen_case(seed, tier='quick'):
         [1, 1, 2, 3, 4])
     two = (not plain) and n >= 4 and rng.random() < 0.3
     split = rng.randint(2, n - 1) if two else n
-    addrs = _layout(n, W, split)
-    ctx = {'addrs': addrs, 'names': {}, 'n': n, 'W': W, 'split': split}
+    sheets = list(rng.choice(SHEET_PAIRS))
+    addrs = _layout(n, W, split, sheets)
+    ctx = {'addrs': addrs, 'names': {}, 'n': n, 'W': W, 'split': split,
+           'sheets': sheets}
     deps = {i: [] for i in range(n)}     # i -> [(j, kind)]
     weights = [50, 12, 16, 12, 10] if not plain else [80, 0, 10, 10, 0]
+    if cls == 'longcycle':
+        # only single-target constructs: the shortest cycle really is Lc
+        weights = [78, 10, 0, 12, 0]
 
     def kind():
         return rng.choices(CONSTRUCTS, weights)[0]
@@ -223,7 +233,7 @@ def gen_case(seed, tier='quick'):
         entry = rng.randrange(n)
     info['entry_index'] = entry
 
-    world = {'class': cls, 'info': info, 'nodes': nodes,
+    world = {'class': cls, 'info': info, 'nodes': nodes, 'sheets': sheets,
              'names': ctx['names'],
              'qualify': bool(two or rng.random() < 0.3),
              'fail_on': 1}
@@ -239,7 +249,7 @@ def gen_case(seed, tier='quick'):
         first['fault'] = {'kind': 'interrupt',
                           'frac': round(rng.uniform(0.02, 1.15), 3)}
     ops.append(first)
-    tail = [{'op': 'eval', 'target': 'Sheet1!Y2'},
+    tail = [{'op': 'eval', 'target': f'{sheets[0]}!Y2'},
             {'op': 'eval', 'target': e}]
     if rng.random() < 0.5:
         tail.append({'op': 'eval', 'target': addrs[rng.randrange(n)],
@@ -255,35 +265,42 @@ def gen_case(seed, tier='quick'):
 # rendering + abstract graph
 # --------------------------------------------------------------------------
 
-def _ref(frm_sheet, to_addr, qualify):
+def _ref(frm_sheet, to_addr, qualify, default='Sheet1'):
     sheet, a = to_addr.split('!')
-    if sheet == frm_sheet == 'Sheet1' and not qualify:
+    if sheet == frm_sheet == default and not qualify:
         return a
     return to_addr
 
 
+def probe_cells(world):
+    s0 = world.get('sheets', ['Sheet1'])[0]
+    return {f'{s0}!Y1': 5, f'{s0}!Y2': '=Y1+1'}
+
+
 def render(world):
-    cells = dict(PROBE_CELLS)
+    cells = probe_cells(world)
     q = world.get('qualify', False)
+    s0 = world.get('sheets', ['Sheet1'])[0]
     for nd in world['nodes']:
         sheet = nd['a'].split('!')[0]
         parts = [str(nd['k'])]
         for t in nd['terms']:
             k = t['t']
             if k == 'ref':
-                parts.append(_ref(sheet, t['to'], q))
+                parts.append(_ref(sheet, t['to'], q, s0))
             elif k == 'rep':
-                r = _ref(sheet, t['to'], q)
+                r = _ref(sheet, t['to'], q, s0)
                 parts.append(f'({r}+{r})')
             elif k == 'name':
                 parts.append(t['name'])
             elif k == 'range':
-                rr = t['ref'] if (t['sheet'] == sheet == 'Sheet1' and not q) \
+                rr = t['ref'] if (t['sheet'] == sheet == s0 and not q) \
                     else f"{t['sheet']}!{t['ref']}"
                 parts.append(f'SUM({rr})')
             elif k == 'if':
-                live = _ref(sheet, t['live'], q) if t['live'] else '1'
-                parts.append(f"IF(TRUE,{live},{_ref(sheet, t['dead'], q)})")
+                live = _ref(sheet, t['live'], q, s0) if t['live'] else '1'
+                parts.append(
+                    f"IF(TRUE,{live},{_ref(sheet, t['dead'], q, s0)})")
         body = '+'.join(parts)
         if nd['fail'] == 'nosuch':
             body = 'NOSUCH(1)+' + body
@@ -472,7 +489,9 @@ def run_case(case):
         stats[k] = stats.get(k, 0) + n
 
     with Ambient(case['seed']):
-        model = worlds.build_model(cells, names)
+        s0 = world.get('sheets', ['Sheet1'])[0]
+        probes = probe_cells(world)
+        model = worlds.build_model(cells, names, default_sheet=s0)
         uf = UserFuncs(fail_on=world.get('fail_on'))
         ev = Evaluator(model, uf.namespace())
         for seq, op in enumerate(case['ops']):
@@ -483,7 +502,7 @@ def run_case(case):
             addr = world['names'].get(target, target)
             if op.get('new_evaluator'):
                 ev = Evaluator(model, uf.namespace())
-            if addr in PROBE_CELLS:
+            if addr in probes:
                 st = Stepper(max_steps=SAFETY_STEPS, max_depth=200)
                 with st:
                     out = outcome_of(ev.evaluate, target)
@@ -500,12 +519,14 @@ def run_case(case):
                 continue
             if addr not in g.nodes:
                 continue
-            if simple_paths(g, addr) >= 400:
-                bump('skipped_expensive')
-                continue
             flaky_armed = uf.fail_on is not None and \
                 uf.flaky_calls < uf.fail_on
             exp = expectation(g, addr, cells, flaky_armed)
+            if not exp['cyc_live'] and simple_paths(g, addr) >= 400:
+                # exponential cost of a *successful* re-evaluating walk is
+                # not part of this property
+                bump('skipped_expensive')
+                continue
             bud = budgets(exp)
             if exp['allow'] == ['value']:
                 bud['max_steps'] = max(bud['max_steps'], SAFETY_STEPS)
@@ -517,7 +538,7 @@ def run_case(case):
                 else:
                     # measuring pass on a pristine copy (it has to satisfy
                     # the oracles too)
-                    m2 = worlds.build_model(cells, names)
+                    m2 = worlds.build_model(cells, names, default_sheet=s0)
                     uf2 = UserFuncs(fail_on=world.get('fail_on'))
                     ev2 = Evaluator(m2, uf2.namespace())
                     st = Stepper(**bud)
@@ -689,7 +710,7 @@ def reducers(case):
     if w.get('qualify'):
         c = copy.deepcopy(case)
         c['world']['qualify'] = False
-        if not any(nd['a'].startswith('S2!') for nd in w['nodes']):
+        if len({nd['a'].split('!')[0] for nd in w['nodes']}) == 1:
             yield c
     for i, op in enumerate(case['ops']):
         f = op.get('fault')
